@@ -28,6 +28,8 @@ func init() {
 			{ID: "C09.R9", Text: "the member number the partition is computed from is the configured one: defaulting never rewrites a configured member number or group size (same rule as C17.R1)", Run: c17r1},
 			{ID: "C09.R10", Text: "a reopened vBucket is one this member still owns: reopen goes through openStream, which looks the vBucket up in the current position map at call time and fails for one that left the range (same rule as C12.R3)", Run: c12r3},
 			{ID: "C09.R11", Text: "the partition keeps following the membership: the vBucket discovery is closed only by the client's close path, never by the stream (a rebalance closes the stream, not the discovery)", Run: discoveryClosedOnlyByClient},
+			{ID: "C09.R12", Text: "the partition is computed from the latest numbering: announcements are applied in the order they were made: every Publish on the membership topic is a plain synchronous call, never go/defer (same rule as C10.R29)", Run: publishSynchronous},
+			{ID: "C09.R13", Text: "a member the group no longer lists stops instead of keeping its old chunk: the numbering step is fatal when the live list does not contain this member (same rule as C10.R25)", Run: cbmNumbering},
 			{ID: "C09.R3", Text: "purity: no globals, goroutines, map ranges; ChunkSlice calls only builtins; Get calls only GetInfo, ChunkSlice and the logger", Run: c09r3},
 		},
 	})
